@@ -29,6 +29,13 @@ def _f7_c13(case, details):
     return details.get('why') == 'not optimal on the shared (identity-matched) selection' \
         and details.get('equal_sizes') is True and details.get('pairing_differs') is True
 
+@signature('fast_rmsd_positional_pairing_unenforced')
+def _f6(case, details):
+    """F6: compute_irmsd_fast / compute_lrmsd_fast with enforce_residue_matching=False pair the common atoms by FILE
+    POSITION (each structure's own record order): a decoy whose common atoms come in a different relative order is mis-paired"""
+    return details.get('fast_route') is True and details.get('enforce') is False and details.get('relative_order_differs') is True \
+        and str(details.get('why', '')).startswith('reported ')
+
 def match(prop, mismatch, active):
     for k in active:
         f = SIGNATURES.get(k['signature'])
